@@ -4,7 +4,7 @@
 (* forward call relations, ONLY imports at routine or module level, optional module-variable     *)
 (* import, one unit per file) with seed p1 (driver or kernel) keeps the invariants of C25.       *)
 EXTENDS SchedOps, SchedUniverse
-CONSTANTS NP, MaxOps, Styles
+CONSTANTS NP, MaxOps, Styles, Guarded
 VARIABLES S, G, hist, pc      \* G: the graph of S (computed once per step)
 mvars == <<S, G, hist, pc>>
 
@@ -20,6 +20,18 @@ ConfFor(P, drv) ==
   \* (a plain seed name becomes ambiguous when the seed's module is cloned by dup: qualified seeds for module procedures)
   [BaseConf(<<IF P.procs[1].mod = "" THEN Plain(P.procs[1]) ELSE Qual(P.procs[1])>>) EXCEPT !.routines = IF drv THEN <<[RE("p1") EXCEPT !.hasRole = TRUE, !.role = "driver"]>> ELSE <<>>]
 
+\* Preconditions under which the design keeps the invariants.  Each excluded situation is a design-level
+\* finding of this model (MC_SchedOps_unguarded.cfg, Guarded = FALSE, is the negative control that finds them):
+\*  (a) dup of a module procedure k while another routine of the same module calls k: the whole module is cloned,
+\*      k is renamed in the clone, the clone of the sibling still calls the old name
+\*  (b) dup with subgraph when a module imports the callee at module level: only routine-level imports of a clone are
+\*      re-pointed (a TODO in DuplicateKernel._rename_calls), the clone calls a name it does not import
+Pre(o) ==
+  /\ (o.op = "dup" /\ o.sub) => \A m \in Mods(S.P) : m.imports = <<>>
+  /\ o.op = "dup" => \A q \in {n \in ProcNodes(G) : n.local = o.k /\ n.scope # ""} :
+                     \A pr \in Procs(S.P) : (pr.mod = q.scope /\ pr.name # o.k) => o.k \notin Range(pr.calls)
+
+EmptyGraph == [nodes |-> {}, edges |-> {}, poss |-> <<>>]
 MCInit == S = <<>> /\ G = <<>> /\ hist = <<>> /\ pc = "pick"
 Pick ==
   /\ pc = "pick"
@@ -34,14 +46,18 @@ Step ==
   /\ \E o \in Ops :
        /\ o.op \in {"dep", "wrap"} => Count(o.op) = 0
        /\ o.op = "wrap" => Count("dep") = 0          \* wrapping after the dependency injection is not a use case
+       /\ o.op = "dup" => \A i \in DOMAIN hist : ~(hist[i].op = "dup" /\ hist[i].k = o.k)   \* a kernel is duplicated once
+       /\ Guarded => Pre(o)
        /\ S' = ApplyG(S, G, o)
-       /\ G' = Graph(S')
+       /\ G' = IF AllRefsLegal(S'.P) /\ UniqueUnits(S'.P) /\ SeedsResolve(S'.P, S'.C) THEN Graph(S') ELSE EmptyGraph
        /\ hist' = Append(hist, o)
   /\ UNCHANGED pc
 MCNext == Pick \/ Step
 MCSpec == MCInit /\ [][MCNext]_mvars
 
 Running == pc = "run"
+\* (all units, not only those of processed files: the closure is only defined on a project without dangling references)
+InvAllRefsLegal == Running => AllRefsLegal(S.P)
 InvNoDanglingRef == Running => NoDanglingRef(S.P, G.nodes)
 InvUniqueUnits == Running => UniqueUnits(S.P)
 InvSeedsResolve == Running => SeedsResolve(S.P, S.C)
